@@ -70,23 +70,21 @@ def run(rep, tier):
         if len(calls.get(a, [])) == 1 and len(calls.get(b, [])) == 1:
             rep.check(g.dominates(calls[a][0]["id"], calls[b][0]["id"]) and calls[a][0]["id"] != calls[b][0]["id"], "R11.1", "order|%s<%s" % (a, b), "%s before %s" % (a, b),
                       "ProcessUserInput runs %s before %s (e.g. REQUIRED is checked before user input is merged, or defaults are validated before they are injected)" % (b, a), f.loc(), sample=(b == "CheckRequired"))
-    tree = [d for d in f.decls.values() if d.get("init") is not None and "LoadDefaults" in show(d["init"])]
-    okt = len(tree) == 1
+    # value-based: every stage receives the tree LoadDefaults returned (or its "options" child), the user tree enters only the two stages that read it, and that tree is returned
+    fpu = Fold(f, inline=False, record_calls=r"OptionsHandler::\w+$").run()
+    sc = {e["callee"].split("::")[-1]: e for e in fpu.events if e["kind"] == "call" and e["callee"].split("::")[-1] in stages}
+    okt = "LoadDefaults" in sc and all(s_ in sc for s_ in stages)
     if okt:
-        nm = tree[0]["name"]
-        alias = {nm}
-        for d in f.decls.values():
-            if d.get("init") is not None and nows(show(d["init"])) in alias and "&" in (d.get("type") or ""):
-                alias.add(d["name"])
-        nm_rx = "|".join(sorted(alias))
-        args_ok = all(re.search(r"\b(%s)\b" % nm_rx, show(calls[s_][0]["args"][-1])) for s_ in stages[1:] if calls.get(s_))
-        args_ok0 = all(nows(show(calls[s_][0]["args"][-1])) in (nm, '%s.get("options")' % nm) or nm in show(calls[s_][0]["args"][-1]) for s_ in stages[1:] if calls.get(s_))
-        rets = [n for n in f.walk() if n.get("k") == "return"]
-        okt = args_ok and len(rets) == 1 and nm in show(rets[0]["value"])
-        ov = calls.get("OverwriteDefaultsWithUserInput", [None])[0]
-        if ov is not None:
-            a0, a1 = nows(show(ov["args"][0])), nows(show(ov["args"][1]))
-            okt = okt and "user_input" in a0 and nm in a1 and '"options"' in a0 and '"options"' in a1
+        tree_v = sc["LoadDefaults"]["value"]
+        un = f.j["params"][0]["name"]
+        is_tree = lambda v: str(v) == str(tree_v) or re.match(r'^get\(%s, (ctor\()?"options"' % re.escape(str(tree_v)), str(v)) is not None
+        is_user = lambda v: str(v) == un or re.match(r'^get\(%s, (ctor\()?"options"' % re.escape(un), str(v)) is not None
+        okt = all(is_tree(sc[s_]["args"][-1]) for s_ in stages[1:]) and not any(sc[s_]["guards"] for s_ in stages)
+        okt = okt and is_user(sc["CheckUserInput"]["args"][0]) and is_user(sc["OverwriteDefaultsWithUserInput"]["args"][0])
+        ov_a = sc["OverwriteDefaultsWithUserInput"]["args"]
+        okt = okt and ('"options"' in str(ov_a[0])) == ('"options"' in str(ov_a[1]))        # both at the same level of their trees
+        rets_ = [e for e in fpu.events if e["kind"] == "return"]
+        okt = okt and len(rets_) == 1 and str(rets_[0]["value"]) == str(tree_v)
     rep.check(okt, "R11.1", "same-tree", "all stages work on the loaded tree and it is returned", "ProcessUserInput stages do not all operate on (and return) the loaded defaults tree", f.loc())
 
     # ---------------------------------------------------------------- R11.2
@@ -221,6 +219,10 @@ def run(rep, tier):
     rep.check(len(vst) == 1 and str(vst[0]["value"]) == "value(%s)" % un_ and re.search(r'!\(?hasAttribute\(%s, (ctor\()?"list"' % re.escape(dn_), gtxt[0]) is not None, "R11.2", "overwrite-value",
               "user value replaces the default value (non-list nodes)", "OverwriteDefaultsWithUserInput assigns %s under %s" % ([str(e["value"]) for e in vst], gtxt), ow.loc())
     lits = {x["v"] for n in ow.walk() if n.get("k") == "if" for x in walk(n["cond"]) if x.get("k") == "str"}
+    # also through boolean locals: the literals in the folded path conditions
+    for e_ in fow.events:
+        for g_ in e_["guards"]:
+            lits |= set(re.findall(r'"(\w+)"', fow.cond_str(g_[0])))
     rep.check({"list", "unchecked"} <= lits, "R11.2", "overwrite-cases",
               "three cases: normal, list, unchecked", "OverwriteDefaultsWithUserInput does not distinguish the list and unchecked cases (attributes tested: %s)" % sorted(lits), ow.loc())
 
